@@ -3,7 +3,7 @@ import BindgenModel.Model.ConstEmit
 import BindgenModel.Model.CRegions
 /-! Line protocol of C05.
 
-`c05 m sg=<0|1> fit=<0|1> fb=<0|1> NAME=<expr> NAME=<expr> …`  (definitions in header order)
+`c05 m sg=<0|1> fit=<0|1> fb=<0|1> cstr=<0|1> NAME=<expr> NAME=<expr> …`  (definitions in header order)
   answer: one item per definition, space separated,
   `NAME|<cexpr outcome>|<emitted constant or - or dup>|<C value of NAME at end of header>|<regions>`
 
@@ -138,6 +138,7 @@ def emitText : Emit → String
   | .fltNaN ty => s!"{ty}:nan"
   | .fltInf ty neg => if neg then s!"{ty}:-inf" else s!"{ty}:inf"
   | .bytes bs => s!"str:{hexOfBytes bs}"
+  | .cstr bs => s!"cstr:{hexOfBytes bs}"
 
 def cvalText : Option CVal → String
   | some (.int t v) => s!"i:{tyName t}:{v}"
@@ -162,7 +163,7 @@ def cOwn (env : CEnv) (body : Expr) : String :=
 
 def handleMacros (toks : List String) : String :=
   let o : MOpts := ⟨kv toks "sg" == some "1", kv toks "fit" == some "1"⟩
-  let defToks := toks.filter fun t => !(t.startsWith "sg=" || t.startsWith "fit=" || t.startsWith "fb=")
+  let defToks := toks.filter fun t => !(t.startsWith "sg=" || t.startsWith "fit=" || t.startsWith "fb=" || t.startsWith "cstr=")
   let parsed := defToks.map parseDef
   if parsed.any Option.isNone then "bad-expr" else
   let defs := parsed.filterMap id
@@ -182,7 +183,7 @@ def handleMacros (toks : List String) : String :=
     let oc := if charPanic then "panic" else outcomeText st.outcome
     let em := match st.outcome, st.emitted with
       | .ok _, none => "dup"
-      | _, some r => (match emitMacro o r with | some e => emitText e | none => "nokind")
+      | _, some r => (match emitMacroC o (kv toks "cstr" == some "1") r with | some e => emitText e | none => "nokind")
       | _, none => "-"
     let cv := match clookup cenv name with
       | some v => cvalText (some v)
